@@ -1,14 +1,18 @@
 """Regenerate the MIR dump (and the generated entity table) from /repo's current working tree."""
 import os, glob, subprocess, fcntl, shutil, time, hashlib
 
+import sys
 VERIF = os.path.dirname(os.path.dirname(os.path.abspath(__file__)))
-REPO = os.environ.get("VERIF_REPO", "/repo")
-CACHE = os.path.join(VERIF, ".cache")
+sys.path.insert(0, VERIF)
+from lib import common as _C
+REPO = _C.REPO
+CACHE = _C.CACHE
 
 
 def dump_mir(crate):
     """-> (path of MIR text, path of generated named_entities.rs, seconds).  Always recompiles the crate."""
     os.makedirs(os.path.join(CACHE, "mir"), exist_ok=True)
+    os.makedirs(CACHE, exist_ok=True)
     tdir = os.path.join(CACHE, "mir-target")
     lock = open(os.path.join(CACHE, "mir.lock"), "w")
     fcntl.flock(lock, fcntl.LOCK_EX)
@@ -53,7 +57,7 @@ def replay_binary(profile="dev"):
     lock = open(os.path.join(CACHE, "replay.lock"), "w")
     fcntl.flock(lock, fcntl.LOCK_EX)
     try:
-        r = subprocess.run(cmd, cwd=os.path.join(VERIF, "replay"), env=env, stdout=subprocess.PIPE, stderr=subprocess.STDOUT)
+        r = subprocess.run(cmd, cwd=_C.crate_dir("replay"), env=env, stdout=subprocess.PIPE, stderr=subprocess.STDOUT)
     finally:
         fcntl.flock(lock, fcntl.LOCK_UN)
     if r.returncode != 0:
